@@ -22,12 +22,14 @@ func C18(c *Ctx) {
 	r.Rule("C18-c", "no go statement; no value of type *parser is stored outside locals/parameters (not in package variables, struct fields or sent on channels); newParser's result is used only as the receiver of parse in Parse")
 	r.Rule("C18-d", "Option values are immutable: the closure returned by an option constructor stores only through its *parser parameter or into variables declared inside the closure - never into a captured variable (a constructor parameter), so one Option value may be passed to concurrent Parse calls")
 	r.Rule("C18-e", "pooled storage stays inside the call that took it: a value obtained from a package-level sync.Pool other than the state pool (whose life cycle is C18-b) - the value itself, its Bytes() or a slice of it - is not returned, not stored and not passed to another function, so nothing a Parse call hands back (matched text is a slice of the input) can lie in storage that another call reuses")
+	r.Rule("C18-f", "nothing a parser owns is shared through a package-level variable: no store into a parser field (or into the whole parser through its pointer) takes a value that carries a reference - a slice, map, pointer - out of a package-level variable other than the grammar tree, error values and the state pool (a defaults struct copied into every parser shares the backing array of its slices)")
 	abs := c.allAbs()
 	r.Min("semantic variants analysed", 16, len(abs))
 	for _, a := range abs {
 		c18a(c, a.V)
 		c18d(c, a.V)
 		c18e(c, a.V)
+		c18f(c, a.V)
 		if a.V.Params.HasState() {
 			c05ShapesRule(c, a, "C18-b")
 			var bad []string
@@ -444,4 +446,130 @@ func c18e(c *Ctx, v *variants.Variant) {
 	}
 	sort.Strings(names)
 	r.Check(len(bad) == 0, "C18-e", "T.pools:pooled-storage-does-not-escape", v.Name, "builder/static_code.go", fmt.Sprintf("%d Get calls on package-level pools %v; no pooled value other than the state dictionary leaves the function that took it", nGet, names), strings.Join(uniq(bad), "; "))
+}
+
+// c18f (C18-f): nothing a parser owns is shared through a package-level variable. A store into a parser (a field of
+// it, or the whole struct through its pointer) whose right-hand side reads a package-level variable and carries a
+// reference (slice, map, pointer, channel, function or interface inside the stored value) makes every parser built
+// that way share that storage: `*p = parserDefaults` copies the slice header of a defaults struct, and all parsers
+// append into one backing array. The grammar tree (read-only, C18-a), error values and the state pool are the
+// package-level objects parsers may refer to.
+func c18f(c *Ctx, v *variants.Variant) {
+	r := c.R
+	var hasRef func(t types.Type, depth int) bool
+	hasRef = func(t types.Type, depth int) bool {
+		if t == nil || depth > 4 {
+			return false
+		}
+		switch u := t.Underlying().(type) {
+		case *types.Slice, *types.Map, *types.Pointer, *types.Chan, *types.Signature, *types.Interface:
+			return true
+		case *types.Struct:
+			for i := 0; i < u.NumFields(); i++ {
+				if hasRef(u.Field(i).Type(), depth+1) {
+					return true
+				}
+			}
+		case *types.Array:
+			return hasRef(u.Elem(), depth+1)
+		}
+		return false
+	}
+	isParser := func(t types.Type) bool {
+		if p, ok := t.(*types.Pointer); ok {
+			t = p.Elem()
+		}
+		n, ok := t.(*types.Named)
+		return ok && n.Obj().Name() == "parser"
+	}
+	exempt := func(o types.Object) bool {
+		t := o.Type()
+		if p, ok := t.(*types.Pointer); ok {
+			t = p.Elem()
+		}
+		if n, ok := t.(*types.Named); ok {
+			switch n.Obj().Name() {
+			case "grammar", "Pool":
+				return true
+			}
+		}
+		if types.Identical(o.Type(), types.Universe.Lookup("error").Type()) {
+			return true
+		}
+		return false
+	}
+	var bad []string
+	n := 0
+	for _, fd := range v.Funcs() {
+		if fd.Body == nil {
+			continue
+		}
+		check := func(pos token.Pos, target string, rhs ast.Expr) {
+			n++
+			if !hasRef(v.Info.TypeOf(rhs), 0) {
+				return
+			}
+			ast.Inspect(rhs, func(m ast.Node) bool {
+				if _, isLit := m.(*ast.FuncLit); isLit {
+					return false
+				}
+				id, ok := m.(*ast.Ident)
+				if !ok {
+					return true
+				}
+				o, ok := v.Info.Uses[id].(*types.Var)
+				if !ok || o.Parent() != v.Pkg.Scope() || exempt(o) || !hasRef(o.Type(), 0) {
+					return true
+				}
+				bad = append(bad, fmt.Sprintf("%s: %s stores %s into %s: the value carries a reference held by the package-level variable %s, so every parser built this way shares that storage with the others", v.Where(pos), fd.Name.Name, nospace(rhs), target, id.Name))
+				return true
+			})
+		}
+		ast.Inspect(fd.Body, func(nd ast.Node) bool {
+			// a parser built by a literal: the same for every field value
+			if cl, ok := nd.(*ast.CompositeLit); ok && isParser(v.Info.TypeOf(cl)) {
+				for _, el := range cl.Elts {
+					if kv, ok := el.(*ast.KeyValueExpr); ok {
+						check(kv.Pos(), "field "+nospace(kv.Key)+" of a new parser", kv.Value)
+					}
+				}
+				return true
+			}
+			as, ok := nd.(*ast.AssignStmt)
+			if !ok || len(as.Lhs) != len(as.Rhs) {
+				return true
+			}
+			for i, l := range as.Lhs {
+				// the target: a field of a parser, or the parser itself through its pointer
+				base := l
+				for {
+					switch x := base.(type) {
+					case *ast.SelectorExpr:
+						base = x.X
+						continue
+					case *ast.IndexExpr:
+						base = x.X
+						continue
+					case *ast.StarExpr:
+						base = x.X
+						continue
+					case *ast.ParenExpr:
+						base = x.X
+						continue
+					}
+					break
+				}
+				if _, isIdent := l.(*ast.Ident); isIdent {
+					continue
+				}
+				if !isParser(v.Info.TypeOf(base)) {
+					continue
+				}
+				check(as.Pos(), nospace(l), as.Rhs[i])
+			}
+			return true
+		})
+	}
+	sort.Strings(bad)
+	r.Check(len(bad) == 0, "C18-f", "T.parser:no-storage-shared-through-package-variables", v.Name, "builder/static_code.go", fmt.Sprintf("%d stores into parser fields, none takes a reference out of a package-level variable", n), strings.Join(uniq(bad), "; "))
 }
